@@ -112,8 +112,35 @@ def regenerate_facts():
     return True, ""
 
 
+def regenerate_consts():
+    """coq/theories/SrcConsts.v: the named integer constants of the current /repo sources (tools/srcconsts), regenerated on every
+    run.  A constant that can no longer be evaluated is left out (with a comment): the tie lemma that mentions it then fails."""
+    os.makedirs(WORK, exist_ok=True)
+    tool = os.path.join(WORK, "srcconsts")
+    src = os.path.join(VERIF, "tools", "srcconsts")
+    if not os.path.exists(tool) or os.path.getmtime(tool) < os.path.getmtime(os.path.join(src, "main.go")):
+        rc, out = sh(["go", "build", "-o", tool, "."], cwd=src, env=GOENV, timeout=600)
+        if rc != 0:
+            return False, "srcconsts does not build: " + out[-1500:]
+    tmp = os.path.join(WORK, "SrcConsts.v.%d" % os.getpid())
+    rc, out = sh([tool, REPO, tmp], timeout=300)
+    if rc not in (0, 3) or not os.path.exists(tmp):
+        return False, "srcconsts failed on the current sources: " + out[-1500:]
+    dst = os.path.join(COQ, "theories", "SrcConsts.v")
+    new = open(tmp).read()
+    os.remove(tmp)
+    if not os.path.exists(dst) or open(dst).read() != new:
+        open(dst, "w").write(new)
+    return True, ""
+
+
 def coq_make(clean=False, timeout=3000):
+    """Builds the whole development (`make -k`: a file that no longer checks does not hide the others; its stale .vo is removed
+    so that nothing can load it).  Returns (everything built, output)."""
     ok, msg = regenerate_facts()
+    if not ok:
+        return False, msg
+    ok, msg = regenerate_consts()
     if not ok:
         return False, msg
     if clean:
@@ -121,7 +148,14 @@ def coq_make(clean=False, timeout=3000):
            cwd=COQ)
     if not os.path.exists(os.path.join(COQ, "Makefile")):
         sh("coq_makefile -f _CoqProject -o Makefile", cwd=COQ, check=True)
-    rc, out = sh("make -j16", cwd=COQ, timeout=timeout)
+    rc, out = sh("make -k -j16", cwd=COQ, timeout=timeout)
+    if rc != 0:
+        for f in re.findall(r"\[[^\]]*?(theories/\w+)\.vo\] Error", out):
+            for ext in (".vo", ".vos", ".vok", ".glob"):
+                try:
+                    os.remove(os.path.join(COQ, f + ext))
+                except OSError:
+                    pass
     return rc == 0, out
 
 
@@ -131,54 +165,59 @@ def obligations_for(pid):
 
 
 def audit_theorems(pid, names, allowed_axioms):
-    """Compile a generated file that Print-Assumptions every theorem claimed for the property.
-    Returns (discharged, details, failures)."""
+    """Compile generated files that Print-Assumptions every theorem claimed for the property, one file per Properties module so
+    that a module that no longer compiles fails only its own theorems.  Returns (discharged, details, failures)."""
     os.makedirs(WORK, exist_ok=True)
     d = os.path.join(WORK, "audit-%s-%d" % (pid, os.getpid()))
     os.makedirs(d, exist_ok=True)
     mods = sorted(os.path.basename(f)[:-2] for f in coq_sources() if os.path.basename(f).startswith("Properties"))
-    src = ["From Cqos Require %s." % " ".join(mods)]
     where = {}
     for mname in mods:
         for th in re.findall(r"^Theorem (\w+)", open(os.path.join(COQ, "theories", mname + ".v")).read(), flags=re.M):
             where[th] = mname
-
-    def qual(n):
-        return "%s.%s" % (where[n], n) if n in where else n
-    for n in names:
-        src.append('Goal True. idtac "@@BEGIN %s". exact I. Qed.' % n)
-        src.append("Check %s." % qual(n))
-        src.append("Print Assumptions %s." % qual(n))
-    src.append('Goal True. idtac "@@END". exact I. Qed.')
-    open(os.path.join(d, "Audit.v"), "w").write("\n".join(src) + "\n")
-    rc, out = sh(["coqc", "-Q", os.path.join(COQ, "theories"), "Cqos", "Audit.v"], cwd=d, timeout=600)
     failures, details, discharged = [], {}, 0
-    if rc != 0:
-        failures.append("audit did not compile: " + out[-1500:])
-        shutil.rmtree(d, ignore_errors=True)
-        return 0, details, failures
-    blocks = re.split(r"@@BEGIN (\S+)", out)
-    # blocks = [pre, name1, text1, name2, text2, ...]
-    for i in range(1, len(blocks), 2):
-        name, text = blocks[i], blocks[i + 1].split("@@END")[0]
-        if "Closed under the global context" in text:
-            details[name] = []
-            discharged += 1
+    groups = {}
+    for n in names:
+        groups.setdefault(where.get(n), []).append(n)
+    for mname, group in sorted(groups.items(), key=lambda kv: str(kv[0])):
+        if mname is None:
+            for n in group:
+                failures.append("%s: no such theorem in the Properties files" % n)
             continue
-        axioms = re.findall(r"^([A-Za-z_][\w.]*)\s*:", text.split("Axioms:")[-1], flags=re.M) if "Axioms:" in text else None
-        if axioms is None:
-            failures.append("%s: no assumption report" % name)
+        src = ["From Cqos Require %s." % mname]
+        for n in group:
+            src.append('Goal True. idtac "@@BEGIN %s". exact I. Qed.' % n)
+            src.append("Check %s.%s." % (mname, n))
+            src.append("Print Assumptions %s.%s." % (mname, n))
+        src.append('Goal True. idtac "@@END". exact I. Qed.')
+        fname = "Audit%s.v" % mname
+        open(os.path.join(d, fname), "w").write("\n".join(src) + "\n")
+        rc, out = sh(["coqc", "-Q", os.path.join(COQ, "theories"), "Cqos", fname], cwd=d, timeout=600)
+        if rc != 0:
+            failures.append("%s (%s): the module does not check: %s" % (", ".join(group), mname, out[-600:]))
             continue
-        axioms = [a for a in axioms if a != name]
-        extra = [a for a in axioms if a not in allowed_axioms]
-        details[name] = axioms
-        if extra:
-            failures.append("%s depends on axioms outside the allow-list: %s" % (name, ", ".join(extra)))
-        else:
-            discharged += 1
-    missing = [n for n in names if n not in details and not any(f.startswith(n + ":") or f.startswith(n + " ") for f in failures)]
-    for n in missing:
-        failures.append("%s: not reported" % n)
+        blocks = re.split(r"@@BEGIN (\S+)", out)
+        # blocks = [pre, name1, text1, name2, text2, ...]
+        for i in range(1, len(blocks), 2):
+            name, text = blocks[i], blocks[i + 1].split("@@END")[0]
+            if "Closed under the global context" in text:
+                details[name] = []
+                discharged += 1
+                continue
+            axioms = re.findall(r"^([A-Za-z_][\w.]*)\s*:", text.split("Axioms:")[-1], flags=re.M) if "Axioms:" in text else None
+            if axioms is None:
+                failures.append("%s: no assumption report" % name)
+                continue
+            axioms = [a for a in axioms if a != name and a != "%s.%s" % (mname, name)]
+            extra = [a for a in axioms if a not in allowed_axioms]
+            details[name] = axioms
+            if extra:
+                failures.append("%s depends on axioms outside the allow-list: %s" % (name, ", ".join(extra)))
+            else:
+                discharged += 1
+        for n in group:
+            if n not in details and not any(f.startswith(n + ":") or f.startswith(n + " ") for f in failures):
+                failures.append("%s: not reported" % n)
     shutil.rmtree(d, ignore_errors=True)
     return discharged, details, failures
 
@@ -211,15 +250,17 @@ def proofs_part(pid, clean=False, thorough=False):
     ob = obligations_for(pid)
     ok, out = coq_make(clean=clean)
     failures = []
-    if not ok:
-        failures.append("coq build failed: " + out[-2000:])
     bad = forbidden_scan()
     if bad:
         failures.append("forbidden constructs: " + "; ".join(bad[:5]))
-    discharged, details = 0, {}
-    if ok:
-        discharged, details, f2 = audit_theorems(pid, ob["theorems"], set(ob.get("allowed_axioms", [])))
-        failures += f2
+    discharged, details, f2 = audit_theorems(pid, ob["theorems"], set(ob.get("allowed_axioms", [])))
+    failures += f2
+    if not ok:
+        # some file of the development no longer checks.  It concerns this property if one of its theorems is affected (the
+        # audit above fails then) or if the executable model cannot be built (Run.vo: the correspondence needs it)
+        errs = re.findall(r"(theories/\w+\.v)", " ".join(re.findall(r"\[[^\]]*?theories/\w+\.vo\] Error", out)))
+        if f2 or not os.path.exists(os.path.join(COQ, "theories", "Run.vo")) or not errs:
+            failures.append("coq build failed: " + out[-2000:])
     chk = None
     if ok and thorough:
         chk = coqchk_all()
